@@ -31,6 +31,11 @@ TraceReset ==
   /\ IsEvent("Reset")
   /\ ev' = Null /\ written' = <<>> /\ crash' = "none" /\ opened' = FALSE /\ stored' = <<>>
 
+TraceNew ==                                   \* a new database (several per trace in the absent-key traces)
+  /\ IsEvent("BNew")
+  /\ ev' = Trace[l] /\ written' = <<>> /\ crash' = "none" /\ opened' = FALSE
+  /\ UNCHANGED stored
+
 TraceWrite ==                                 \* WriteData: the latest record under a key is the one to read back
   /\ IsEvent("BWrite")
   /\ ev' = Trace[l]
@@ -56,11 +61,11 @@ TracePlain ==
   /\ UNCHANGED <<written, crash, opened, stored>>
 
 TraceSkip ==
-  /\ l <= Len(Trace) /\ Trace[l].ev \notin (Plain \cup {"Reset", "BWrite", "BOpen", "SWrite"})
+  /\ l <= Len(Trace) /\ Trace[l].ev \notin (Plain \cup {"Reset", "BNew", "BWrite", "BOpen", "SWrite"})
   /\ l' = l + 1 /\ ev' = Null
   /\ UNCHANGED <<written, crash, opened, stored>>
 
-TraceNext == TraceReset \/ TraceWrite \/ TraceOpen \/ TraceSWrite \/ TracePlain \/ TraceSkip
+TraceNext == TraceReset \/ TraceNew \/ TraceWrite \/ TraceOpen \/ TraceSWrite \/ TracePlain \/ TraceSkip
 TraceSpec == TraceInit /\ [][TraceNext]_vars
 
 -----------------------------------------------------------------------------
